@@ -908,7 +908,30 @@ func genBasicEncOpen(ctx *Ctx, emit func(Case)) {
 				}})
 		}
 	}
-	// the excluded point of C01_roundtrip_basic: a recipient key object whose ToKID() is not 32 bytes
+	// the excluded point `Honest` of C01_roundtrip_basic: ImportBoxKey(pub of a recipient, ANOTHER secret).
+	// A visible recipient is found by its key id and the wrong secret fails to unbox (the key object's
+	// error, not no-decryption-key); a hidden recipient is tried by secret only and is not found.
+	for c := 0; c < ctx.N(6, 40); c++ {
+		hidden := c%2 == 1
+		f, secs := buildEncFamily(r, encFamilyCfg{major: 1 + (c/2)%2, anon: c%3 == 0, nRecips: 2, openerPos: c % 2,
+			hidden: []bool{hidden, hidden}, bs: 16, ptLens: []int{20}})
+		ring := bkShuffle(r, []bkEntry{{boxPub(secs[c%2]), r.Bytes(32)}, bkHonest(r.Bytes(32))})
+		line := fmt.Sprintf("bk.enc.open known %s %s", bkSpec(ring), keys.Hex(f.msgs[0].msg))
+		out := goExec(line)
+		want := "decryption-failed"
+		if hidden {
+			want = "no-decryption-key"
+		}
+		emit(Case{Stream: "basic.enc.open.dishonest", Line: line, GoOut: out, Fallback: bkFallback(line), // compared EXACTLY, error class included
+			Branch: fmt.Sprintf("hidden=%v/%s", hidden, resClass(out)),
+			Direct: func() string {
+				if resClass(out) != want || len(resReleased(out)) != 0 {
+					return fmt.Sprintf("observation: a basic.Keyring holding (recipient's public key, another secret) answered %s, expected %s: %s", resClass(out), want, trunc(line, 300))
+				}
+				return ""
+			}})
+	}
+	// the excluded point `hlen` of C01_roundtrip_basic: a recipient key object whose ToKID() is not 32 bytes
 	// (the raw key followed by extra bytes / with trailing zero bytes cut): basic.Keyring's copy-into-array
 	// lookup finds the key all the same
 	for c := 0; c < ctx.N(4, 30); c++ {
